@@ -110,6 +110,7 @@ ASSUMPTIONS = [
 
 MAX_SLICE_LEN = 10  # XRayTransform3D._project / _back_project
 KNOWN_ABEL = "abel-adj-odd-width"
+KNOWN_JAC = "jacobian-include-eval"
 
 
 # ----------------------------------------------------------------------------------------------------------
@@ -414,6 +415,33 @@ def derived_tie(ctx, model, cfg, A, res):
                      note=f"form {form}: the model applied to the measured operand closures differs from the implementation")
 
 
+def jacobian_tie(ctx, model, cfg, A, res):
+    """linop.jacobian: the model `Op.jacobian` (eval = push-forward, adj = conjFun of the RAW pull-back of jax.vjp, theorem
+    C01_jacobian_adj) built from the measured jax.jvp / jax.vjp maps of the same Operator must reproduce the operator"""
+    import jax
+
+    with warnings.catch_warnings():
+        warnings.simplefilter("ignore")
+        F, u = G.jac_parts(cfg)
+        n, m = int(cfg["n"]), int(cfg["m"])
+        dt = np.dtype(F.input_dtype)
+        cx = D.is_complex(dt)
+        Dj = D.dense(lambda v: jax.jvp(F, (u,), (v,))[1], (n,), dt)
+        pull = jax.vjp(F, u)[1]
+        Dg = D.dense(lambda ct: pull(ct)[0], (m,), dt)
+    eP, eQ = pq_of(Dj.R, m, cx, n, cx)
+    gP, gQ = pq_of(Dg.R, n, cx, m, cx)
+    leaf = {"t": "jac", "m": m, "n": n}
+    for name, Mx in (("eP", eP), ("eQ", eQ), ("aP", gP), ("aQ", gQ)):
+        leaf[name + "r"] = fs2b(Mx.real)
+        leaf[name + "i"] = fs2b(Mx.imag)
+    diff = compare_model(model, [leaf], {"k": "leaf", "i": 0}, res, cx, cx)
+    ctx.count("jacobian-tie")
+    if diff is not None:
+        ctx.disagree("adjoint.jacobian", {"cfg": cfg}, {"impl": "dense matrices of the Jacobian operator"}, diff, oracle=make_oracle(),
+                     note="Op.jacobian on the measured jvp / raw vjp differs from linop.jacobian")
+
+
 INDEX_MAP_CLASSES = ("Slice", "Crop", "Pad", "Transpose", "Reshape", "Sum")
 
 
@@ -508,6 +536,8 @@ def run_config(ctx, model, cfg, rng, views=False, stream="grid"):
         derived_tie(ctx, model, cfg, A, res)
     if cfg["cls"] in INDEX_MAP_CLASSES and res.get("RA") is not None and res["ok"] and not meta.get("empty_space"):
         index_map_tie(ctx, model, cfg, A, res)
+    if cfg["cls"] == "Jacobian" and res.get("RA") is not None and res["ok"]:
+        jacobian_tie(ctx, model, cfg, A, res)
     if not res["ok"]:
         known = known or classify_known(ctx, model, cfg, A, res)
         ctx.count("obligation-failed:" + "+".join(sorted({t for t, _ in res["fails"]})))
@@ -1159,6 +1189,11 @@ def findings(ctx, model):
         A, res, cerr = build_and_check(G._seeded(dict(cfg)), rng)
         still = cerr is None and not res["ok"]
         ctx.known_finding(fid, still, detail="" if not still else res["fails"][0][1])
+    if ctx.is_known(KNOWN_JAC):
+        with warnings.catch_warnings():
+            warnings.simplefilter("ignore")
+            still, detail = _jac_include_eval_witness()
+        ctx.known_finding(KNOWN_JAC, still, detail=detail)
     # dtype-layer witnesses
     if ctx.is_known(Y.KNOWN_STACK):
         with warnings.catch_warnings():
@@ -1170,6 +1205,24 @@ def findings(ctx, model):
             warnings.simplefilter("ignore")
             still, detail = _T_witness()
         ctx.known_finding(Y.KNOWN_T, still, detail=detail)
+
+
+def _jac_include_eval_witness():
+    """linop.jacobian(F, u, include_eval=True) is a LinearOperator object that declares F's shapes but returns the
+    BlockArray (F(u), J v): not linear (J(0) = (F(u), 0)), output not in the declared space, adj returns (F(u), J^H y)"""
+    import jax.numpy as jnp
+    from scico.linop import jacobian
+    from scico.operator import Operator
+
+    W = jnp.asarray(np.arange(6.0).reshape(2, 3))
+    u = jnp.asarray([1.0, 2.0, 0.5])
+    F = Operator(input_shape=(3,), output_shape=(2,), eval_fn=lambda x: (W @ x) ** 2, input_dtype=np.float64, output_dtype=np.float64)
+    J = jacobian(F, u, include_eval=True)
+    r = J(jnp.zeros(3))
+    a = J.adj(jnp.ones(2))
+    bad = D.norm_shape(D.shape_of(r)) != D.norm_shape(J.output_shape) or float(np.max(np.abs(D.flatten(r)))) != 0.0 \
+        or D.norm_shape(D.shape_of(a)) != D.norm_shape(J.input_shape)
+    return bad, f"declares {J.input_shape}->{J.output_shape}; J(0) has shape {D.shape_of(r)}, max |J(0)| = {float(np.max(np.abs(D.flatten(r))))}; adj returns shape {D.shape_of(a)}"
 
 
 def _stack_witness():
